@@ -25,4 +25,6 @@ def verdict(prop, provider=None):
         return "error", ["recursion: %r" % e]
     known = {(k["property"], k["rule"], k["construct"], k["key"]) for k in load_known().get("open", [])}
     fresh = [f for f in rep.findings if f.ident() not in known]
+    if not fresh and rep.errors:
+        return "error", rep.errors
     return ("violation" if fresh else "ok"), ["%s %s %s: %s" % (f.rule, f.construct, f.where, f.message[:300]) for f in fresh]
